@@ -31,9 +31,9 @@ from typing import Any, Dict, List, Optional, Set, Tuple
 
 from ..engine.context import Ctx, bind_call_args, dataclass_fields
 from ..engine.exprs import atom, facts_on_all_paths, implied, norm, strip_casts
-from ..engine.patterns import cfg_node_of, stmt_of
+from ..engine.patterns import cfg_node_of, enclosing_tries_of, stmt_of
 from ..engine.report import Report
-from ..engine.universe import AnalysisError, FuncInfo, ancestors, own_nodes
+from ..engine.universe import AnalysisError, ClassInfo, FuncInfo, ancestors, own_nodes
 from .walkmodel import WalkModel, assigned_value, reaching_defs
 
 ORDER_PRESERVING = ("sorted", "list", "tuple")
@@ -48,6 +48,8 @@ def run(ctx: Ctx, rep: Report) -> None:
     rep.rule("C01-R6", "a root continues from its last received OID and only while that OID is inside the root", floor=4)
     rep.rule("C01-R7", "endOfMibView markers are never delivered as instances", floor=2)
     rep.rule("C01-R8", "order within a root is preserved between fetch and yield", floor=2)
+    rep.rule("C01-R9", "an exception a fetcher raises itself ends the walk the same way at every fetch site (first request and continuation requests)", floor=3)
+    rep.rule("C01-R10", "the GETBULK-based walk is the same loop: delegation, faithful fetcher results, suffix cut at the marker (shared with C02-R0/R1/R4)", floor=5)
     rep.assumptions += [
         "the agent is standards conformant (GETNEXT/GETBULK return lexicographic successors; endOfMibView at the end of the view)",
         "requested roots are pairwise disjoint (the property's quantifier)",
@@ -62,6 +64,113 @@ def run(ctx: Ctx, rep: Report) -> None:
     check_unfinished(ctx, rep, wm)
     check_markers(ctx, rep, wm)
     check_order(ctx, rep, wm)
+    check_end_signals(ctx, rep, wm)
+    from . import c02
+
+    sub = Report(rep.prop, rep.tier)
+    c02.check_bulk_fetch(ctx, sub, wm)
+    rep.adopt(sub, "C01-R10")
+
+
+def fetcher_raises(ctx: Ctx, fn: FuncInfo, seam: Optional[FuncInfo], depth: int = 0, seen=None) -> List[Tuple[FuncInfo, ast.Raise, ClassInfo]]:
+    """Explicit ``raise <Class>`` statements of a fetcher and of the client helpers it calls (the network seam excluded)."""
+    seen = seen if seen is not None else set()
+    if fn.key in seen or depth > 3:
+        return []
+    seen.add(fn.key)
+    out: List[Tuple[FuncInfo, ast.Raise, ClassInfo]] = []
+    for n in own_nodes(fn.node):
+        if isinstance(n, ast.Raise) and n.exc is not None:
+            for cls in ctx.exc_classes(fn, n.exc) or []:
+                out.append((fn, n, cls))
+        if isinstance(n, ast.Call):
+            for callee in ctx.r.callees(fn, n):
+                if isinstance(callee, FuncInfo) and not callee.module.external and callee is not seam and callee.cls is not None and fn_owner(fn) is callee.cls:
+                    out += fetcher_raises(ctx, callee, seam, depth + 1, seen)
+    return out
+
+
+def fn_owner(fn: FuncInfo) -> Optional[ClassInfo]:
+    cur: Optional[FuncInfo] = fn
+    while cur is not None:
+        if cur.cls is not None:
+            return cur.cls
+        cur = cur.parent
+    return None
+
+
+def check_end_signals(ctx: Ctx, rep: Report, wm: WalkModel, rule: str = "C01-R9") -> None:
+    """
+    The walk calls its fetcher at several sites.  A handler that ends the walk quietly (break / return, no re-raise)
+    for an exception class at one site documents that this class is an end-of-data signal; if a fetcher raises that
+    class itself, every other fetch site needs the same quiet ending - otherwise the walk of an exhausted (empty,
+    end-of-view) subtree raises at one site and ends normally at the other.
+    """
+    w = wm.walk
+    sites: List[Tuple[ast.Call, List[Tuple[ast.ExceptHandler, bool]]]] = []
+    for call in wm.fetch_calls:
+        handlers: List[Tuple[ast.ExceptHandler, bool]] = []
+        for tr, part in enclosing_tries_of(call, w):
+            if part != "body":
+                continue
+            for h in tr.handlers:
+                quiet = not all_paths_reraise(h)
+                handlers.append((h, quiet))
+        sites.append((call, handlers))
+    try:
+        seam = ctx.send_method()
+    except AnalysisError:
+        seam = None
+    raised: List[Tuple[FuncInfo, ast.Raise, ClassInfo]] = []
+    for f in wm.fetchers():
+        raised += fetcher_raises(ctx, f, seam)
+    rep.analysed["fetcher_raise_statements"] = len(raised)
+
+    def quiet_at(handlers, cls: ClassInfo) -> Optional[bool]:
+        """True: caught quietly on some path; False: caught and always re-raised / not caught."""
+        for h, quiet in handlers:
+            if h.type is None:
+                return quiet
+            types = h.type.elts if isinstance(h.type, ast.Tuple) else [h.type]
+            for t in types:
+                hc = ctx.r.resolve_class(w.module, t)
+                if (hc is not None and ctx.r.is_subclass(cls, hc)) or norm(t).split(".")[-1] in ("Exception", "BaseException"):
+                    return quiet
+        return False
+
+    if len(sites) < 2:
+        rep.ok(rule, w.site(), "the walk has a single fetch site", "")
+    for fn, node, cls in raised:
+        verdicts = [quiet_at(handlers, cls) for _, handlers in sites]
+        uniform = len(set(verdicts)) <= 1
+        rep.check(
+            uniform,
+            rule,
+            fn.site(node),
+            f"{fn.qualname} raises {cls.name}: every fetch site of the walk treats it alike (quiet end everywhere, or propagation everywhere)",
+            "; ".join(f"line {c.lineno}: {'ends the walk quietly' if v else 'propagates'}" for (c, _), v in zip(sites, verdicts)),
+            key=f"{fn.key}|end-signal|{cls.name}",
+        )
+
+
+def all_paths_reraise(handler: ast.ExceptHandler) -> bool:
+    """Every path through the handler body ends in a raise (syntactic: last statement raises, or if/else both do)."""
+
+    def ends_in_raise(stmts: List[ast.stmt]) -> bool:
+        if not stmts:
+            return False
+        last = stmts[-1]
+        if isinstance(last, ast.Raise):
+            return all(not _leaves_early(s) for s in stmts[:-1])
+        if isinstance(last, ast.If):
+            return ends_in_raise(last.body) and ends_in_raise(last.orelse) and all(not _leaves_early(s) for s in stmts[:-1])
+        return False
+
+    return ends_in_raise(handler.body)
+
+
+def _leaves_early(stmt: ast.stmt) -> bool:
+    return any(isinstance(n, (ast.Return, ast.Break, ast.Continue)) for n in ast.walk(stmt))
 
 
 # ---------------------------------------------------------------- R1 / R2
